@@ -110,8 +110,10 @@ def _prune(keep):
         return
     entries = [e for e in os.listdir(CACHE) if os.path.isdir(os.path.join(CACHE, e))]
     entries.sort(key=lambda e: os.path.getmtime(os.path.join(CACHE, e)), reverse=True)
+    now = time.time()
     for e in entries[3:]:
-        if e != keep:
+        # never a build touched in the last 90 minutes: another check (a parallel run against another tree) may be using it
+        if e != keep and now - os.path.getmtime(os.path.join(CACHE, e)) > 5400:
             shutil.rmtree(os.path.join(CACHE, e), ignore_errors=True)
 
 
